@@ -249,7 +249,12 @@ class Rotation(Quaternion):
             initial rotations. Only returned if ``return_inverse=True``.
         """
         if self.size == 0:
-            return self.empty()
+            out = (self.empty(),)
+            if return_index:
+                out += (np.array([], dtype=int),)
+            if return_inverse:
+                out += (np.array([], dtype=int),)
+            return out if len(out) > 1 else out[0]
 
         R = self.flatten()
 
